@@ -41,6 +41,7 @@ class _Rec:
         self.tid = tid
         for a in ("spec", "prop", "tier", "seed", "shard", "nshards", "variant", "part", "params"):
             setattr(self, a, getattr(parent, a))
+        self.crash = None
         self.rng = random.Random(f"{parent.prop}/{parent.part}/{parent.seed}/{parent.shard}/{parent.variant}/t{tid}")
         self.evaluations = 0
         self.sigs = set()
@@ -50,7 +51,11 @@ class _Rec:
         self.notes = {}
 
     def mine(self, i):
-        return True
+        return i % self.nshards == self.shard
+
+    def threaded(self, k, fn, switch=1e-6):  # a part that is itself multi-threaded runs its body once per outer thread
+        for t in range(k):
+            fn(self, t)
 
     def ev(self, sig=None, n=1):
         self.evaluations += n
